@@ -207,13 +207,27 @@ def run(res, tier, seed, widen=1):
         ro_bytes = ident + t + b"!\r\n"
         res.evaluations += 1
         case = {"op": "p1.readout", "hex": ro_bytes.hex()}
-        try:
-            ro = dlde.DataReadout(ro_bytes)
-            full = dlde.decode_p1_readout(ro)
-            content = dlde.decode_p1_readout_content(t)
-        except Exception as ex:  # noqa
-            res.count("readout_path_" + D.exc_name(ex))
+        outcome = {}
+        for route, fn in (("readout", lambda: dlde.decode_p1_readout(dlde.DataReadout(ro_bytes))),
+                          ("content", lambda: dlde.decode_p1_readout_content(t)),
+                          ("auto_payload", lambda: AutoDecoder().decode_message_payload(t)),
+                          ("auto_message", lambda: AutoDecoder().decode_message(dlde.DataReadout(ro_bytes)))):
+            try:
+                outcome[route] = fn()
+            except Exception as ex:  # noqa
+                outcome[route] = ex
+        refused = [r for r, v in outcome.items() if isinstance(v, Exception) or v is None]
+        if refused:
+            # "the same block decodes identically through ..." also means: a block one route decodes is not refused by another.
+            # (Stated for blocks that transmit at least one data set and consist of printable characters, CR and LF - the
+            # content route refuses empty content and control characters by design, the whole-readout route has neither guard.)
+            if len(refused) < len(outcome) and expected_sets(b) != "." and not any(x < 32 and x not in (13, 10) for x in t):
+                ok_routes = [r for r in outcome if r not in refused]
+                res.prop_failure(case, f"the same block is decoded through {ok_routes} but refused through "
+                                       f"{[(r, 'None' if outcome[r] is None else D.exc_name(outcome[r])) for r in refused]}", "paths")
+            res.count("readout_path_refused")
             continue
+        full, content = outcome["readout"], outcome["content"]
         rest = {k: v for k, v in full.items() if k not in ("meter_manufacturer_id", "meter_type_id")}
         if D.render_dict(rest) != D.render_dict(content):
             res.prop_failure(case, "decode_p1_readout and decode_p1_readout_content disagree beyond the two identification fields", "paths")
@@ -227,8 +241,7 @@ def run(res, tier, seed, widen=1):
         want_id = rest_id.decode() if rest_id else None
         if full.get("meter_type_id") != want_id:
             res.prop_failure(case, f"meter type id {full.get('meter_type_id')!r}, the identification line {ident!r} carries {want_id!r}", "paths")
-        a1 = AutoDecoder().decode_message_payload(t)
-        a2 = AutoDecoder().decode_message(ro)
+        a1, a2 = outcome["auto_payload"], outcome["auto_message"]
         if a1 is None or D.render_dict(a1) != D.render_dict(content) or a2 is None or D.render_dict(a2) != D.render_dict(full):
             res.prop_failure(case, "AutoDecoder decodes the same block differently", "paths")
         m = lib.drive([f"automsg N P {lib.hexs(ro_bytes)}"])[0] if False else None
@@ -332,6 +345,22 @@ def replay(payload, res):
         rest_id = ident[5:]
         while len(rest_id) >= 2 and rest_id[0:1] == b"\\" and (rest_id[1:2].isalnum() or rest_id[1:2] == b"_"):
             rest_id = rest_id[2:]
+        try:
+            block = bytes(dlde.DataReadout(b).payload)
+            routes = {}
+            for route, fn in (("readout", lambda: dlde.decode_p1_readout(dlde.DataReadout(b))), ("content", lambda: dlde.decode_p1_readout_content(block)),
+                              ("auto_payload", lambda: AutoDecoder().decode_message_payload(block))):
+                try:
+                    v = fn()
+                    routes[route] = "refused (None)" if v is None else "decoded"
+                except Exception as ex:  # noqa
+                    routes[route] = "refused (" + D.exc_name(ex) + ")"
+            print("routes:", routes)
+            if len(set(v.split(" ")[0] for v in routes.values())) > 1 and impl_parse(block)[1] and not any(x < 32 and x not in (13, 10) for x in block):
+                print("the same block is decoded through one route and refused through another")
+                ok = False
+        except Exception as ex:  # noqa
+            print("routes not compared:", D.exc_name(ex))
         if isinstance(r, dict) and r.get("meter_type_id") != (rest_id.decode() if rest_id else None):
             print("meter type id", r.get("meter_type_id"), "but the identification line carries", rest_id)
             ok = False
